@@ -5,7 +5,20 @@ extern "C" {
 #include <mtbl.h>
 }
 
+// merge function families; all associative and commutative, so the model does not depend on fold order
+//   0 union : sorted multiset union of newline-terminated tokens (result grows; shows each value used exactly once)
+//   1 min   : bytewise smaller operand          (result never longer than an operand)
+//   2 lcp   : longest common prefix             (result usually shorter than both operands)
+//   3 max   : bytewise larger operand
+//   4 sum32 : 32-bit little-endian sum of the first 4 bytes, rest dropped (fixed width)
+enum { MF_UNION = 0, MF_MIN = 1, MF_LCP = 2, MF_MAX = 3, MF_SUM32 = 4, MF_N = 5 };
+Bytes fold_values(int mfunc, const Bytes &a, const Bytes &b);
+// stateless context (callbacks running on pool workers must not touch shared harness state)
+void *stateless_merge_ctx(int mfunc);
+
 struct MergeCtx {
+	int mfunc = MF_UNION;
+	bool stateless = false;
 	uint64_t calls = 0, fail_at = 0;
 	bool fail_fired = false;
 	Bytes failed_key;
@@ -37,6 +50,7 @@ struct MergeSrc {
 struct MergeWorld {
 	std::vector<MergeSrc> srcs;
 	TableModel merged = new_model();
+	int mfunc = MF_UNION;
 	std::map<Bytes, uint64_t> occ;
 	std::vector<std::pair<Bytes, Bytes>> all;
 	size_t shared_keys = 0;
